@@ -2,6 +2,7 @@ import Storrent.Model.WireParse
 import Storrent.Gen.WireTable
 import Storrent.Lemmas.Bytes
 import Storrent.Props.C04
+import Storrent.Lemmas.Bencode
 /-
 C06 — Emitted messages round-trip and match an independent BitTorrent codec.
 
@@ -271,5 +272,98 @@ theorem C06_stream_fixed (bd : BDec) (ms : List Msg) (h : ∀ m ∈ ms, WFfixed 
 /-! non-vacuity -/
 example : WFfixed (.request 1 16384 16384) ∧ WFfixed (.piece 0 0 [1,2,3]) := by
   simp [WFfixed, U32]
+
+end Storrent.Props.C06
+
+namespace Storrent.Props.C06
+open Storrent Storrent.Bencode Storrent.Wire Storrent.Props.C04
+
+
+theorem lookup_append (k : Bytes) (l1 l2 : List (Bytes × BV)) :
+    lookup k (l1 ++ l2) = ((lookup k l2).or (lookup k l1)) := by
+  unfold lookup
+  simp [List.reverse_append, List.find?_append]
+  cases List.find? (fun kv => kv.1 == k) l2.reverse <;> simp
+
+theorem metaDict_good (t p tot : Nat) : ∀ kv ∈ metaDict t p tot, GoodKey kv.1 ∧ GoodBV kv.2 := by
+  intro kv hkv
+  unfold metaDict optKV at hkv
+  split at hkv <;> simp at hkv
+  · rcases hkv with h | h | h <;> subst h <;> simp [GoodKey, GoodBV, natV, strBytes]
+  · rcases hkv with h | h <;> subst h <;> simp [GoodKey, GoodBV, natV, strBytes]
+
+theorem decMeta_enc (t p tot : Nat) (ht : t < 256) (hp : U32 p) (htot : U32 tot) (data : Bytes) :
+    decMeta (encDict (metaDict t p tot) ++ data)
+      = some (some (t, p, tot, (encDict (metaDict t p tot)).length)) := by
+  unfold decMeta
+  rw [parseDict_enc _ (metaDict_good t p tot)]
+  unfold U32 at hp htot
+  by_cases h0 : tot = 0
+  · subst h0
+    simp [metaDict, optKV, getU, lookup, natV, strBytes, show ¬ ((t:Int) < 0) by omega,
+      show ¬ ((p:Int) < 0) by omega, Nat.mod_eq_of_lt ht, Nat.mod_eq_of_lt hp]
+  · simp [metaDict, optKV, getU, lookup, natV, strBytes, h0, show ¬ ((t:Int) < 0) by omega,
+      show ¬ ((p:Int) < 0) by omega, show ¬ ((tot:Int) < 0) by omega,
+      Nat.mod_eq_of_lt ht, Nat.mod_eq_of_lt hp, Nat.mod_eq_of_lt htot]
+
+
+
+theorem rt_dontHave (bd : BDec) (rest : Bytes) (i : Nat) (h : U32 i) :
+    dec bd (be32 6 ++ [20] ++ ([3] ++ be32 i) ++ rest) = ⟨.msg (.dontHave 3 i), 10, 0⟩ := by
+  rt_simp; rw [recompose32 i h]; rt_fin
+
+theorem rt_metadata (rest : Bytes) (t p tot : Nat) (data : Bytes)
+    (ht : t < 256) (hp : U32 p) (htot : U32 tot)
+    (hlen : (encDict (metaDict t p tot)).length + data.length + 2 ≤ 1048576) :
+    let payload := [2] ++ encDict (metaDict t p tot) ++ data
+    (dec leanBDec (be32 (payload.length + 1) ++ [20] ++ payload ++ rest)).res
+        = .msg (.metadata 2 t p tot data) ∧
+    (dec leanBDec (be32 (payload.length + 1) ++ [20] ++ payload ++ rest)).consumed
+        = 4 + (payload.length + 1) := by
+  intro payload
+  have hpl : payload.length = (encDict (metaDict t p tot)).length + data.length + 1 := by
+    simp [payload] <;> omega
+  obtain ⟨a, b, c, d, hbe⟩ : ∃ a b c d, be32 (payload.length + 1) = [a, b, c, d] := ⟨_, _, _, _, rfl⟩
+  have hr : rdBE [a, b, c, d] = payload.length + 1 := hbe ▸ rdBE_be32 _ (by omega)
+  rw [hbe]
+  have hm := decMeta_enc t p tot ht hp htot data
+  simp only [dec, decodeWith, List.cons_append, List.nil_append, List.length_cons, List.take_succ_cons,
+    List.take_zero, List.drop_succ_cons, List.drop_zero, hr, expectedFrameCap, payload]
+  simp [body, findGuard, expectedGuards, guardViolated, leanBDec]
+  rw [if_neg (by omega), if_neg (by omega), if_neg (by omega), if_neg (by omega)]
+  have htk : List.take ((encDict (metaDict t p tot)).length + data.length)
+      (encDict (metaDict t p tot) ++ (data ++ rest)) = encDict (metaDict t p tot) ++ data := by
+    rw [← List.append_assoc]
+    exact List.take_left' (by simp)
+  rw [htk, hm]
+  simp
+
+
+/-- **Round trip of the bencoded metadata message** (BEP 9) and of lt_donthave through the
+    model of protocol.Read instantiated with the Lean bencode decoder, any bytes following. -/
+theorem C06_roundtrip_metadata (rest : Bytes) (t p tot : Nat) (data : Bytes)
+    (ht : t < 256) (hp : U32 p) (htot : U32 tot)
+    (hlen : (encDict (metaDict t p tot)).length + data.length + 2 ≤ 1048576) :
+    ∃ bs, encode (.metadata 2 t p tot data) = some bs ∧
+      (decode leanBDec (bs ++ rest)).res = .msg (.metadata 2 t p tot data) ∧
+      (decode leanBDec (bs ++ rest)).consumed = bs.length := by
+  have h := rt_metadata rest t p tot data ht hp htot hlen
+  simp only [decode_eq]
+  refine ⟨_, rfl, ?_, ?_⟩
+  · exact h.1
+  · rw [show frame 20 ([UInt8.ofNat 2] ++ encDict (metaDict t p tot) ++ data) =
+        be32 (([2] ++ encDict (metaDict t p tot) ++ data).length + 1) ++ [20] ++
+          ([2] ++ encDict (metaDict t p tot) ++ data) from rfl]
+    rw [h.2]; simp [be32_length] <;> omega
+
+theorem C06_roundtrip_donthave (bd : BDec) (rest : Bytes) (i : Nat) (h : U32 i) :
+    ∃ bs, encode (.dontHave 3 i) = some bs ∧
+      (decode bd (bs ++ rest)).res = .msg (.dontHave 3 i) ∧
+      (decode bd (bs ++ rest)).consumed = bs.length := by
+  have := rt_dontHave bd rest i h
+  unfold dec at this
+  simp only [decode_eq]
+  have e : frame 20 ([UInt8.ofNat 3] ++ be32 i) = be32 6 ++ [20] ++ ([3] ++ be32 i) := rfl
+  exact ⟨_, rfl, by rw [e, this], by rw [e, this]; rfl⟩
 
 end Storrent.Props.C06
